@@ -15,6 +15,7 @@ import argparse, json, os, random, re, subprocess, sys, time, hashlib
 from concurrent.futures import ThreadPoolExecutor
 
 HERE = os.path.dirname(os.path.abspath(__file__)); VERIF = os.path.dirname(HERE)
+DRIVER_COPY = os.path.join(VERIF, ".build", "mutation_driver")
 INC = "/repo/include/pops"
 
 FILE_PROPS = {
@@ -121,8 +122,9 @@ def run_mutant(mu, idx, tier_checks):
         checks = {}
         killed = False
         for c in tier_checks(mu["file"]):
-            r = sh("cd %s && VERIF_REPO=%s VERIF_JOBS=6 python3 tools/check.py %s --tier quick" % (VERIF, wt, c), timeout=1500)
-            v = len(re.findall(r"^VIOLATION", r.stdout, re.M)); nf = r.stdout.count("no-failing-input-found")
+            r = sh("cd %s && VERIF_REPO=%s VERIF_JOBS=6 VERIF_SKIP_LEAN=1 VERIF_DRIVER=%s python3 tools/check.py %s --tier quick" % (VERIF, wt, DRIVER_COPY, c), timeout=1500)
+            nf = r.stdout.count("no-failing-input-found")
+            v = len(re.findall(r"^VIOLATION", r.stdout, re.M)) - nf   # alarms that come with a failing input
             crash = "HARNESS BUILD FAILED" in r.stdout
             checks[c] = {"violations": v, "no_failing_input": nf, "build_failed": crash}
             if v > 0:
@@ -133,6 +135,8 @@ def run_mutant(mu, idx, tier_checks):
         rec["checks"] = checks
         if killed:
             rec["verdict"] = "killed_by_check"
+        elif any(c["no_failing_input"] for c in checks.values()):
+            rec["verdict"] = "model_divergence_only"   # reported, but without a failing input of the property
         else:
             r = sh("cd %s && cmake -G Ninja -S . -B _b >/dev/null 2>&1 && cmake --build _b -j4 >/dev/null 2>&1; ctest --test-dir _b -j4 2>&1 | tail -30" % wt, timeout=3000)
             green = "100% tests passed, 0 tests failed out of 25" in r.stdout
@@ -179,9 +183,15 @@ def main():
         if cid in done: continue
         picks.append(c)
     os.makedirs(os.path.dirname(a.out), exist_ok=True)
+    import shutil
+    os.makedirs(os.path.dirname(DRIVER_COPY), exist_ok=True)
+    shutil.copy(os.path.join(VERIF, "lean", ".lake", "build", "bin", "popsdriver"), DRIVER_COPY)
     tc = lambda f: FILE_PROPS[f]
+    from concurrent.futures import as_completed
     with ThreadPoolExecutor(max_workers=a.jobs) as ex:
-        for rec in ex.map(lambda t: run_mutant(t[1], t[0], tc), enumerate(picks)):
+        futs = [ex.submit(run_mutant, mu, i, tc) for i, mu in enumerate(picks)]
+        for f in as_completed(futs):
+            rec = f.result()
             with open(a.out, "a") as fh: fh.write(json.dumps(rec) + "\n")
             print(rec["verdict"], rec["file"], rec["line"], rec["op"], rec.get("wall_s"), flush=True)
 
